@@ -56,6 +56,18 @@ def same_u_other_heralds(lw, rng, n):
         a = int(rng.integers(n - 1))
         steps.append((a, float(rng.uniform(0.2, 0.8))))
     m1, m2 = rng.choice(n, size=2, replace=False).tolist()
+    if rng.random() < 0.5 and n >= 3:
+        # identical components and identical *input* herald; only the output herald mode differs
+        outs = rng.choice(n, size=2, replace=False).tolist()
+        ph = int(rng.integers(0, 2))
+        pair = []
+        for o in outs:
+            c = lw.Circuit(n)
+            for a, r in steps:
+                c.bs(a, a + 1, r)
+            c.herald(ph, m1, int(o))
+            pair.append(c)
+        return pair
     out = []
     for (m, ph) in ((m1, 0), (m2 if rng.random() < 0.5 else m1, 1 if rng.random() < 0.7 else 0)):
         c = lw.Circuit(n)
